@@ -1,9 +1,10 @@
 (* Reconnect.v — model of the reconnect loop of mqtt-go (C09).
-   Code modelled: reconnclient.go:63-201 (Connect's loop goroutine, Disconnect), the parts of
-   retryclient.go that decide what Disconnect does (238-254 Disconnect with the nil-chTask guard of
-   fix cbf3ad0, 276-365 SetClient / task goroutine: on which client the queued Disconnect task runs),
-   connect.go:107-169 (one CONNECT per BaseClient.Connect; the serve-exit goroutine closes the
-   transport before Done() is closed), conn.go (Close/Done/Err).
+   Code modelled (line numbers of the tree at commit 515978c): reconnclient.go:63-215 (Connect's loop
+   goroutine, Disconnect, timeoutContext 228-233), the parts of retryclient.go that decide what
+   Disconnect does (238-254 Disconnect with the nil-chTask guard of fix cbf3ad0, 276-370 SetClient /
+   task goroutine: on which client the queued Disconnect task runs), connect.go:107-165 (one CONNECT
+   per BaseClient.Connect; the serve-exit goroutine closes the transport before Done() is closed),
+   conn.go (Close/Done/Err).
 
    The loop is a function of
      - a per-iteration outcome oracle (what the dialer / the peer / the keep-alive did), and
@@ -17,26 +18,26 @@ Open Scope Z_scope.
 Definition two63 : Z := 9223372036854775808.
 Definition wrap64 (z : Z) : Z := (z + two63) mod (2 * two63) - two63.
 
-(* reconnclient.go:166-169   reconnWait *= 2; if reconnWait > max { reconnWait = max } *)
+(* reconnclient.go:180-183   reconnWait *= 2; if reconnWait > max { reconnWait = max } *)
 Definition next_wait (max w : Z) : Z :=
   let w2 := wrap64 (w * 2) in if w2 >? max then max else w2.
 
 (* ---------- the oracle ---------- *)
-(* why RetryClient.Connect returned an error (reconnclient.go:93 else-branch 146-148) *)
+(* why RetryClient.Connect returned an error (reconnclient.go:102, else-branch 160-162) *)
 Inductive cfail :=
 | CRefused (code : N)      (* CONNACK with a non-zero return code (connect.go:155-160) *)
-| CNoConnack               (* nothing until ctxConnect (WithTimeout) expired (connect.go:153) *)
+| CNoConnack               (* no CONNACK ever: Connect returns when ctxConnect is done (connect.go:153), see [blocks] *)
 | CPeerClosed.             (* transport ended before CONNACK (connect.go:151) *)
 
-(* how an established connection ended (the select at reconnclient.go:131-145) *)
+(* how an established connection ended (the select at reconnclient.go:145-159) *)
 Inductive cend :=
 | EPeerClose               (* EOF from the peer: serve returns io.EOF, Err() != nil *)
 | EProtoErr                (* malformed / unknown packet: serve returns the error *)
-| EKeepAlive               (* no PINGRESP: keep-alive goroutine sets ErrPingTimeout and closes (112-128) *)
-| EGraceful.               (* the base client was disconnected on purpose: Err() == nil (134-137) *)
+| EKeepAlive               (* no PINGRESP: keep-alive goroutine sets ErrPingTimeout and closes (121-143) *)
+| EGraceful.               (* the base client was disconnected on purpose: Err() == nil (146-151) *)
 
 Inductive outcome :=
-| ODialErr                 (* DialContext returned an error (88, 155-157) *)
+| ODialErr                 (* DialContext returned an error (88, 169-171) *)
 | OConnFail (f : cfail)    (* dial ok, Connect failed *)
 | OConnected (e : cend).   (* dial ok, CONNACK accepted, later ended by e (unless stopped before) *)
 
@@ -44,8 +45,8 @@ Inductive outcome :=
 Inductive phase :=
 | PDial                    (* while DialContext is running *)
 | PConnect                 (* after CONNECT was written, before Connect returns *)
-| PConnected               (* after Connect returned nil, while the loop sits in the select 131-145 *)
-| PWait.                   (* after the iteration failed / the connection was lost: select 158-165 *)
+| PConnected               (* after Connect returned nil, while the loop sits in the select 145-159 *)
+| PWait.                   (* after the iteration failed / the connection was lost: select 172-179 *)
 
 Definition phase_eqb (a b : phase) : bool :=
   match a, b with
@@ -71,8 +72,11 @@ Record config := mkConfig {
   c_base : Z;                (* ReconnectWaitBase, ns *)
   c_max : Z;                 (* ReconnectWaitMax, ns *)
   c_conn : connect;          (* client id and ConnectOptions given to Connect *)
-  c_guard : bool }.          (* retryclient.go:247 "if c.chTask != nil" present (true = the code as it is;
+  c_guard : bool;            (* retryclient.go "if c.chTask != nil" in Disconnect present (true = the code as it is;
                                 false = before fix cbf3ad0, kept only to state what the fix repaired) *)
+  c_timeout : bool;          (* ReconnectOptions.Timeout <> 0: ctxConnect has a deadline (timeoutContext) *)
+  c_abort : bool }.          (* reconnclient.go:92-100: Disconnect cancels ctxConnect (true = the code as it is;
+                                false = before fix 515978c, kept only to state what the fix repaired) *)
 
 (* ---------- observable events ---------- *)
 Inductive ev :=
@@ -81,7 +85,7 @@ Inductive ev :=
 | EvConnect (k : nat) (c : connect)  (* a CONNECT packet with these fields written on transport k *)
 | EvBadPkt (k : nat)                 (* observation only: first packet on k is not that CONNECT *)
 | EvClose (k : nat)                  (* transport k closed *)
-| EvWait (d : Z)                     (* the loop sleeps d ns in the select 158-165 *)
+| EvWait (d : Z)                     (* the loop sleeps d ns in the select 172-179 *)
 | EvExit                             (* loop goroutine returned: close(c.done) (82-84) *)
 | EvStop (s : skind)                 (* Disconnect called / context cancelled *)
 | EvDiscReturned                     (* ReconnectClient.Disconnect returned *)
@@ -96,7 +100,7 @@ Inductive dtask :=
 
 Record lstate := mkL {
   l_wait : Z;          (* reconnWait *)
-  l_first : bool;      (* doneOnce ran: ctx == context.Background() (97-101) *)
+  l_first : bool;      (* doneOnce ran: ctx == context.Background() (108-112) *)
   l_started : bool;    (* RetryClient.chTask != nil: some SetClient happened (retryclient.go:289-293) *)
   l_disc : bool;       (* c.disconnected closed *)
   l_cancel : bool;     (* Connect's ctx cancelled *)
@@ -128,10 +132,10 @@ Definition cancel_here (sc : scenario) (i : nat) (ph : phase) : bool :=
   | None => false
   end.
 
-(* ReconnectClient.Disconnect up to the point where it waits for c.done (reconnclient.go:192-194):
+(* ReconnectClient.Disconnect up to the point where it waits for c.done (reconnclient.go:206-208):
    close(c.disconnected); RetryClient.Disconnect = push the Disconnect task, close(chTask) — which
    is nil until the first SetClient: None = panic. Which client the task runs on:
-   retryclient.go:299-363. *)
+   retryclient.go:299-368. *)
 Definition disc_effect (guard : bool) (ph : phase) (task_first : bool) (st : lstate) : option lstate :=
   if l_started st then
     Some (set_disc (match ph with
@@ -161,63 +165,74 @@ Definition land (cfg : config) (sc : scenario) (i : nat) (ph : phase) (st : lsta
 Inductive lres :=
 | Running (st : lstate)     (* the loop goes on with the next iteration *)
 | Exited (st : lstate)      (* the loop goroutine returned *)
-| Crashed.                  (* the process panicked *)
+| Crashed                   (* the process panicked *)
+| Blocked (st : lstate).    (* the loop goroutine waits in Connect for a CONNACK for ever *)
+
+(* A handshake whose CONNACK never comes ends only when ctxConnect is done (connect.go:151-154):
+   by its deadline if a timeout is configured, by the caller's context while that still is the
+   loop's context (before the first success), or - reconnclient.go:92-100 - by Disconnect. *)
+Definition blocks (cfg : config) (f : cfail) (st : lstate) : bool :=
+  match f with
+  | CNoConnack => negb (c_timeout cfg || (l_cancel st && negb (l_first st)) || (c_abort cfg && l_disc st))
+  | _ => false
+  end.
 
 (* the events after the loop decided to return; Disconnect (if it was called) then returns
-   (reconnclient.go:195-200) *)
+   (reconnclient.go:209-214) *)
 Definition exit_events (st : lstate) : list ev :=
   EvExit :: (if l_disc st then [EvDiscReturned] else []).
 
-(* the select at reconnclient.go:158-169 *)
+(* the select at reconnclient.go:172-183 *)
 Definition wait_phase (cfg : config) (sc : scenario) (evs : list ev) (st : lstate) : list ev * lres :=
   let '(st1, e1, crashed) := land cfg sc (l_iter st) PWait st in
   if crashed then (evs ++ e1, Crashed)
-  else if l_disc st1 then (evs ++ e1 ++ exit_events st1, Exited st1)                 (* 163-164 *)
-  else if l_cancel st1 && negb (l_first st1) then (evs ++ e1 ++ exit_events st1, Exited st1)  (* 160-162 *)
-  else (evs ++ e1 ++ [EvWait (l_wait st1)],                                           (* 159 *)
-        Running (next_iter (next_wait (c_max cfg) (l_wait st1)) st1)).                (* 166-169 *)
+  else if l_disc st1 then (evs ++ e1 ++ exit_events st1, Exited st1)                 (* 177-178 *)
+  else if l_cancel st1 && negb (l_first st1) then (evs ++ e1 ++ exit_events st1, Exited st1)  (* 174-176 *)
+  else (evs ++ e1 ++ [EvWait (l_wait st1)],                                           (* 173 *)
+        Running (next_iter (next_wait (c_max cfg) (l_wait st1)) st1)).                (* 180-183 *)
 
-(* dial succeeded: SetClient, Connect writes CONNECT (reconnclient.go:88-93, connect.go:131-145);
+(* dial succeeded: SetClient, Connect writes CONNECT (reconnclient.go:88-102, connect.go:131-148);
    returns the state and events up to the point where Connect is about to return *)
 Definition dial_ok (cfg : config) (sc : scenario) (st : lstate) : lstate * list ev * bool :=
   let k := l_k st in
   let '(st1, e1, crashed) := land cfg sc (l_iter st) PConnect (set_client st) in
   (st1, [EvOpen k; EvConnect k (c_conn cfg)] ++ e1, crashed).
 
-(* one iteration of the for loop (reconnclient.go:87-170) *)
+(* one iteration of the for loop (reconnclient.go:87-184) *)
 Definition iteration (cfg : config) (sc : scenario) (st : lstate) (o : outcome) : list ev * lres :=
   let i := l_iter st in
   let '(st1, e1, crashed1) := land cfg sc i PDial st in
   let pre1 := EvDial i :: e1 in
   if crashed1 then (pre1, Crashed) else
   match o with
-  | ODialErr => wait_phase cfg sc pre1 st1                                           (* 155-157 *)
-  | OConnFail _ =>
+  | ODialErr => wait_phase cfg sc pre1 st1                                           (* 169-171 *)
+  | OConnFail f =>
     let k := l_k st1 in
     let '(st2, e2, crashed2) := dial_ok cfg sc st1 in
     if crashed2 then (pre1 ++ e2, Crashed) else
+    if blocks cfg f st2 then (pre1 ++ e2, Blocked st2) else
     (* Connect returned an error: the task goroutine now runs a queued Disconnect task on this
-       failed client (retryclient.go:309-314: a closed chConnectErr means "connected") *)
+       failed client (retryclient.go:314-319: a closed chConnectErr means "connected") *)
     let st3 := match l_task st2 with DQueued => set_task DRan st2 | _ => st2 end in
-    (* 149-154: cancelConnect(); baseCli.Close(); <-baseCli.Done() *)
+    (* 163-168: cancelConnect(); baseCli.Close(); <-baseCli.Done() *)
     wait_phase cfg sc (pre1 ++ e2 ++ [EvClose k]) st3
   | OConnected e =>
     let k := l_k st1 in
     let '(st2, e2, crashed2) := dial_ok cfg sc st1 in
     if crashed2 then (pre1 ++ e2, Crashed) else
-    (* 96-101: reset the wait; ctx = context.Background() *)
+    (* 107-112: reset the wait; ctx = context.Background() *)
     let st3 := set_first (set_wait (c_base cfg) st2) in
     let '(st4, e4, crashed4) := land cfg sc i PConnected st3 in
     let pre4 := pre1 ++ e2 ++ e4 in
     if crashed4 then (pre4, Crashed) else
     if l_disc st4 then
-      (* 142-144 (or 132-137 after the Disconnect task closed this client): return. The transport
+      (* 156-158 (or 146-151 after the Disconnect task closed this client): return. The transport
          is closed by the Disconnect task unless that task was already spent on an older client. *)
       (pre4 ++ (match l_task st4 with DRan => [] | _ => [EvClose k] end) ++ exit_events st4, Exited st4)
     else
       match e with
-      | EGraceful => (pre4 ++ [EvClose k] ++ exit_events st4, Exited st4)            (* 132-137, Err()==nil *)
-      | _ => wait_phase cfg sc (pre4 ++ [EvClose k]) st4                             (* Err()!=nil; 149-154 *)
+      | EGraceful => (pre4 ++ [EvClose k] ++ exit_events st4, Exited st4)            (* 146-151, Err()==nil *)
+      | _ => wait_phase cfg sc (pre4 ++ [EvClose k]) st4                             (* Err()!=nil; 163-168 *)
       end
   end.
 
